@@ -86,6 +86,76 @@ func init() {
 		}
 	})
 
+	// the cached path: case variants of a query are filed under one entry, so on ONE long-lived cache a query and its
+	// re-spelling must get the same answer under identical options - also when the same text was asked just before under
+	// options that differ in a single field, in either order of the two spellings
+	searchMonitors = append(searchMonitors, func(mon *Mon, cur *SearchRecord, prev []*SearchRecord) {
+		n := 0
+		fmt.Sscanf(os.Getenv("VERIF_RESPELL"), "%d", &n)
+		if n <= 0 || cur.Panic != "" {
+			return
+		}
+		defer func() {
+			if p := recover(); p != nil {
+				mon.Tag("c20.cached-stage-panicked")
+			}
+		}()
+		rng := NewRng(uint64(len(cur.Query))*104729+uint64(len(prev)), uint64(len(cur.DB.Commands)), "c20cached"+cur.Query)
+		v := respell(rng, cur.Query)
+		if v == cur.Query {
+			return
+		}
+		o := cur.Opts
+		deltas := []func(o *database.SearchOptions){
+			func(o *database.SearchOptions) { o.NoCrossPlatform = !o.NoCrossPlatform },
+			func(o *database.SearchOptions) { o.AllPlatforms = !o.AllPlatforms },
+			func(o *database.SearchOptions) { o.UseFuzzy = !o.UseFuzzy },
+			func(o *database.SearchOptions) { o.UseNLP = !o.UseNLP },
+			func(o *database.SearchOptions) { o.PipelineOnly = !o.PipelineOnly },
+			func(o *database.SearchOptions) { o.Limit = o.Limit + 1 },
+			func(o *database.SearchOptions) {
+				if len(o.Platforms) == 0 {
+					o.Platforms = []string{"windows"}
+				} else {
+					o.Platforms = nil
+				}
+			},
+		}
+		cdb := database.NewCachedDatabase(cur.DB)
+		check := func(what string, q1 string, o1 database.SearchOptions, q2 string, o2 database.SearchOptions) bool {
+			a := cdb.SearchWithOptionsAndCache(q1, o1)
+			b := cdb.SearchWithOptionsAndCache(q2, o2)
+			if !sameAnswer(cur.DB, a, cur.DB, b) {
+				mon.Hit("C20", "case-changes-cached-answer", map[string]interface{}{"history": what, "query_hex": Hx(q1), "variant_hex": Hx(q2),
+					"query": q1, "variant": q2, "answer": answerIDs(cur.DB, a), "variant_answer": answerIDs(cur.DB, b)})
+				return false
+			}
+			return true
+		}
+		if !check("q then variant, same options", cur.Query, o, v, o) {
+			return
+		}
+		for k := 0; k < len(deltas); k++ {
+			d := deltas[(k+len(cur.Query))%len(deltas)]
+			o2 := o
+			d(&o2)
+			// the text as typed under o, at once again under o2; then its re-spelling under o2
+			cdb.SearchWithOptionsAndCache(cur.Query, o)
+			if !check("q under o, q under o', variant under o'", cur.Query, o2, v, o2) {
+				return
+			}
+			// and the other way round
+			cdb.SearchWithOptionsAndCache(v, o2)
+			if !check("variant under o', variant under o, q under o", v, o, cur.Query, o) {
+				return
+			}
+			mon.Tag("c20.cached-delta")
+		}
+		if len(cur.Results) > 0 {
+			mon.Tag("c20.cached-nonempty")
+		}
+	})
+
 	// directed stream: queries rich in case-bearing letters incl. U+212A, sigma forms, sharp s, dotless i
 	searchStreams["c20"] = func(r *Rng, tier string, idx int, args map[string]string) []string {
 		var cmds []database.Command
